@@ -170,6 +170,24 @@ Theorem embed_tp n3 k s t c' c (l : list (mat * mat)) : bij (n3 + k) s t ->
   meq (n3 + k) (n3 + k) (sum_prod (n3 + k) (map (fun p => (embed_fast n3 s c' (fst p), embed_fast n3 s c (snd p))) l)) mid.
 Proof. intros Hb Hsum Hc. eapply meq_trans; [now apply embed_sum_prod with (t := t)|]. rewrite Hc.
   intros i j Hi Hj. rewrite (embed_ext n3 s 1 _ mid Hsum). now apply (embed_id n3 k s t Hb). Qed.
+(* instruments: one Kraus list PER OUTCOME (any lengths, possibly different): the padding coefficient must make the TOTAL number of
+   Kraus operators over all outcomes times c' c equal to one (MProcess: c' = c = 1 / sqrt(total Kraus count)) *)
+Lemma length_concat_sum {A : Type} (ls : list (list A)) : length (concat ls) = list_sum (map (@length A) ls).
+Proof. induction ls as [|l ls IH]; cbn; [reflexivity|]. now rewrite app_length, IH. Qed.
+Theorem embed_tp_instrument n3 k s t c' c (ls : list (list (mat * mat))) : bij (n3 + k) s t ->
+  meq n3 n3 (sum_prod n3 (concat ls)) mid -> nsum (list_sum (map (@length _) ls)) (c' * c) = 1 ->
+  meq (n3 + k) (n3 + k)
+    (sum_prod (n3 + k) (concat (map (map (fun p => (embed_fast n3 s c' (fst p), embed_fast n3 s c (snd p)))) ls))) mid.
+Proof. intros Hb Hsum Hc. rewrite <- concat_map. rewrite <- length_concat_sum in Hc. now apply embed_tp with (t := t). Qed.
+(* ... and only then: with at least one padded dimension (k > 0), an embedded set that sums to the identity forces m c' c = 1 *)
+Theorem embed_tp_only_if n3 k s t c' c (l : list (mat * mat)) : bij (n3 + k) s t -> (0 < k)%nat ->
+  meq (n3 + k) (n3 + k) (sum_prod (n3 + k) (map (fun p => (embed_fast n3 s c' (fst p), embed_fast n3 s c (snd p))) l)) mid ->
+  nsum (length l) (c' * c) = 1.
+Proof. intros Hb Hk H. pose proof (embed_sum_prod n3 k s t c' c l Hb) as E.
+  destruct Hb as [Hs Ht]. assert (Hn : (n3 < n3 + k)%nat) by lia.
+  destruct (Ht n3 Hn) as [Ha Hsa]. specialize (H (t n3) (t n3) Ha Ha). specialize (E (t n3) (t n3) Ha Ha).
+  rewrite E in H. unfold embed_fast, emb_block, mid in H. rewrite Hsa in H.
+  destruct (Nat.ltb_spec n3 n3); [lia|]. now rewrite !Nat.eqb_refl in H. Qed.
 End EmbedTP.
 
 (* the permutation built by _permutation_matrix_from_qutrits_to_qubits is a bijection of [0, 4^n) — checked by evaluation
